@@ -397,5 +397,13 @@ _ADDED4 = {
            "once a value's destructor has run its key reads as garbage until the call returns.",
     "C19": _LOCALE % ", non-English day and month names",
 }
+_ADDED4["C10"] = (" CborBig.tla: one encoder that grows to tens of megabytes, is read back, reset and used again (strings as "
+                  "arithmetic patterns, contents compared by the adapter).")
+_ADDED4["C14"] = " Bursts of 1025-2100 lines accepted before the background thread runs, producers sending while the batch is written."
+_ADDED4["C16"] = " 32-bit operands reach every variant in registers whose upper half is dirty (callers that narrow 64-bit quantities)."
+_ADDED4["C17"] = " Blocks the tracer has never seen (from the wrapped allocator directly) are resized and released through it."
+_ADDED4["C08"] = " Clients take further references while the scheduler is in use (ThreadSchedAbs!AcqRef) and release them at the end."
+_ADDED4["C20"] = (" A joinable thread joins its own handle (refused, nothing changes); threads count themselves in and out of join-all "
+                  "by hand (aws_thread_increment / decrement_unjoined_count) while join-all waits.")
 for _k, _t in _ADDED4.items():
     CLAIMED[_k]["text"] += _t
